@@ -378,5 +378,353 @@ theorem lt_succ (a : Bytes) : a < a ++ [0] := by
   induction a with
   | nil => exact List.nil_lt_cons _ _
   | cons x xs ih => exact List.cons_lt_cons_iff.mpr (Or.inr ⟨rfl, ih⟩)
+
+theorem H_inj_or_collision {x y : Bytes} (h : H x = H y) : x = y ∨ Collision H := by
+  by_cases e : x = y
+  · exact Or.inl e
+  · exact Or.inr ⟨x, y, e, h⟩
+
+/-- `Reach t p s`: the proof path `p`, read from the root of `t`, names real inner nodes of `t` with the
+real hash of the sibling at every step, and ends at the subtree `s`. -/
+inductive Reach : Tree → Path → Tree → Prop
+  | nil (t : Tree) : Reach t [] t
+  | left (h sz v : Int) (k : Bytes) (l r : Tree) (rest : Path) (s : Tree) :
+      Reach l rest s → Reach (.inner h sz v k l r) (⟨h, sz, v, [], Tree.hash H enc r⟩ :: rest) s
+  | right (h sz v : Int) (k : Bytes) (l r : Tree) (rest : Path) (s : Tree) :
+      Reach r rest s → Reach (.inner h sz v k l r) (⟨h, sz, v, Tree.hash H enc l, []⟩ :: rest) s
+
+/-- **Merkle path soundness**: a valid path that hashes `x` up to the root hash of `t` follows `t`. -/
+theorem pathHash_sound (hinj : EncInj enc) :
+    ∀ (p : Path) (x : Bytes) (t : Tree), (∀ n ∈ p, ValidNode false n) → WF t →
+      pathHash H enc p x = Tree.hash H enc t → Collision H ∨ ∃ s, Reach H enc t p s ∧ Tree.hash H enc s = x := by
+  intro p
+  induction p with
+  | nil => intro x t _ _ h; exact Or.inr ⟨t, Reach.nil t, h.symm⟩
+  | cons n rest ih =>
+    intro x t hv hw h
+    have hn := hv n (by simp)
+    have hrest : ∀ m ∈ rest, ValidNode false m := fun m hm => hv m (by simp [hm])
+    obtain ⟨hpos, hside, _⟩ := hn
+    simp only [pathHash, PIN.hash] at h
+    cases hw with
+    | leaf k v ver =>
+      simp only [Tree.hash] at h
+      split at h
+      · rcases H_inj_or_collision H h with e | c
+        · have := (hinj _ _ _ _ _ _ _ _ _ _ e).1; omega
+        · exact Or.inl c
+      · rcases H_inj_or_collision H h with e | c
+        · have := (hinj _ _ _ _ _ _ _ _ _ _ e).1; omega
+        · exact Or.inl c
+    | inner hh s ver nk l r hhpos hwl hwr _ _ =>
+      simp only [Tree.hash] at h
+      split at h
+      · rename_i hl0
+        rcases H_inj_or_collision H h with e | c
+        · obtain ⟨e1, e2, e3, e4, e5⟩ := hinj _ _ _ _ _ _ _ _ _ _ e
+          rcases ih x l hrest hwl e4 with c | ⟨s', hr, hs⟩
+          · exact Or.inl c
+          · refine Or.inr ⟨s', ?_, hs⟩
+            have : n = ⟨hh, s, ver, [], Tree.hash H enc r⟩ := by
+              cases n; simp_all
+            rw [this]; exact Reach.left _ _ _ _ _ _ _ _ hr
+        · exact Or.inl c
+      · rename_i hl0
+        have hr0 : n.right = [] := by
+          rcases hside with ⟨a, _⟩ | ⟨_, b⟩
+          · exact absurd a hl0
+          · exact b
+        rcases H_inj_or_collision H h with e | c
+        · obtain ⟨e1, e2, e3, e4, e5⟩ := hinj _ _ _ _ _ _ _ _ _ _ e
+          rcases ih x r hrest hwr e5 with c | ⟨s', hr, hs⟩
+          · exact Or.inl c
+          · refine Or.inr ⟨s', ?_, hs⟩
+            have : n = ⟨hh, s, ver, Tree.hash H enc l, []⟩ := by
+              cases n; simp_all
+            rw [this]; exact Reach.right _ _ _ _ _ _ _ _ hr
+        · exact Or.inl c
+
+/-- a subtree whose hash is a proof leaf's hash is that leaf -/
+theorem leaf_sound (hinj : EncInj enc) (s : Tree) (hw : WF s) (lf : PLeaf)
+    (h : Tree.hash H enc s = PLeaf.hash H enc lf) :
+    Collision H ∨ ∃ k v ver, s = .leaf k v ver ∧ lf = ⟨k, H v, ver⟩ := by
+  cases hw with
+  | leaf k v ver =>
+    simp only [Tree.hash, PLeaf.hash] at h
+    rcases H_inj_or_collision H h with e | c
+    · obtain ⟨_, _, e3, e4, e5⟩ := hinj _ _ _ _ _ _ _ _ _ _ e
+      exact Or.inr ⟨k, v, ver, rfl, by cases lf; simp_all⟩
+    · exact Or.inl c
+  | inner hh sz ver nk l r hpos _ _ _ _ =>
+    simp only [Tree.hash, PLeaf.hash] at h
+    rcases H_inj_or_collision H h with e | c
+    · have := (hinj _ _ _ _ _ _ _ _ _ _ e).1; omega
+    · exact Or.inl c
+
+/-- the leaves of a tree as proof leaves, in key order -/
+def pl (t : Tree) : List PLeaf := t.leaves.map (pleafOf H)
+
+theorem pl_inner (h s v : Int) (k : Bytes) (l r : Tree) : pl H (.inner h s v k l r) = pl H l ++ pl H r := by
+  simp [pl, Tree.leaves]
+
+/-- `Sibs rev rs`: `rs` are the right siblings hanging off the left-turn nodes of `rev` (a path read
+from the leaf upwards), each node carrying the real hash of its sibling. -/
+inductive Sibs : List PIN → List Tree → Prop
+  | nil : Sibs [] []
+  | skip (n : PIN) (rev : List PIN) (rs : List Tree) : n.right = [] → Sibs rev rs → Sibs (n :: rev) rs
+  | take (n : PIN) (rev : List PIN) (r : Tree) (rs : List Tree) :
+      n.right ≠ [] → n.right = Tree.hash H enc r → WF r → Sibs rev rs → Sibs (n :: rev) (r :: rs)
+
+theorem Sibs.append {a b : List PIN} {ra rb : List Tree} (ha : Sibs H enc a ra) (hb : Sibs H enc b rb) :
+    Sibs H enc (a ++ b) (ra ++ rb) := by
+  induction ha with
+  | nil => simpa using hb
+  | skip n rev rs h _ ih => exact Sibs.skip n _ _ h ih
+  | take n rev r rs h1 h2 h3 _ ih => exact Sibs.take n _ r _ h1 h2 h3 ih
+
+theorem Sibs.nil_of_rightmost {rev : List PIN} {rs : List Tree} (h : Sibs H enc rev rs)
+    (hr : ∀ n ∈ rev, n.right = []) : rs = [] := by
+  induction h with
+  | nil => rfl
+  | skip n rev rs _ _ ih => exact ih (fun m hm => hr m (by simp [hm]))
+  | take n rev r rs h1 _ _ _ _ => exact absurd (hr n (by simp)) h1
+
+theorem isRightmost_iff (p : Path) : isRightmost p = true ↔ ∀ n ∈ p, n.right = [] := by
+  simp [isRightmost, List.all_eq_true]
+theorem isLeftmost_iff (p : Path) : isLeftmost p = true ↔ ∀ n ∈ p, n.left = [] := by
+  simp [isLeftmost, List.all_eq_true]
+
+/-- what a path that follows the tree says about the tree's leaf list -/
+theorem reach_sibs (hne : HNonEmpty H) {t : Tree} {p : Path} {s : Tree} (hr : Reach H enc t p s) (hw : WF t) :
+    WF s ∧ ∃ rs pre, Sibs H enc p.reverse rs ∧ pl H t = pre ++ pl H s ++ rs.flatMap (pl H) ∧
+      (isLeftmost p = true → pre = []) := by
+  induction hr with
+  | nil t => exact ⟨hw, [], [], Sibs.nil, by simp, fun _ => rfl⟩
+  | left h sz v k l r rest s _ ih =>
+    cases hw with
+    | inner _ _ _ _ _ _ _ hwl hwr _ _ =>
+      obtain ⟨hws, rs, pre, hs, hpl, hlm⟩ := ih hwl
+      refine ⟨hws, rs ++ [r], pre, ?_, ?_, ?_⟩
+      · rw [List.reverse_cons]
+        exact Sibs.append H enc hs (Sibs.take _ _ r _ (hash_ne_nil H enc hne r) rfl hwr Sibs.nil)
+      · rw [pl_inner, hpl]; simp
+      · intro hl
+        rw [isLeftmost_iff] at hl
+        exact hlm ((isLeftmost_iff rest).mpr (fun n hn => hl n (by simp [hn])))
+  | right h sz v k l r rest s _ ih =>
+    cases hw with
+    | inner _ _ _ _ _ _ _ hwl hwr _ _ =>
+      obtain ⟨hws, rs, pre, hs, hpl, hlm⟩ := ih hwr
+      refine ⟨hws, rs, pl H l ++ pre, ?_, ?_, ?_⟩
+      · rw [List.reverse_cons]
+        have := Sibs.append H enc hs (Sibs.skip ⟨h, sz, v, Tree.hash H enc l, []⟩ [] [] rfl Sibs.nil)
+        simpa using this
+      · rw [pl_inner, hpl]; simp
+      · intro hl
+        rw [isLeftmost_iff] at hl
+        exact absurd (hl ⟨h, sz, v, Tree.hash H enc l, []⟩ (by simp)) (hash_ne_nil H enc hne l)
+
+theorem valid_true_false {n : PIN} (h : ValidNode true n) : ValidNode false n :=
+  ⟨h.1, h.2.1, by simp⟩
+
+/-- the specification of `COMPUTEHASH` with `fuel` levels of recursion left -/
+def CHSpec (fuel : Nat) : Prop :=
+  ∀ path rm leaves inners r, computeHash H enc fuel path rm leaves inners = .ok r →
+    (∀ n ∈ path, ValidNode false n) → (∀ p ∈ inners, ∀ n ∈ p, ValidNode true n) →
+    (r.treeEnd = true → rm = true) ∧ (r.done = true → r.leaves = []) ∧ (∀ p ∈ r.inners, p ∈ inners) ∧
+    ∀ s, WF s → r.hash = Tree.hash H enc s →
+      Collision H ∨ ∃ pre C post, pl H s = pre ++ C ++ post ∧ leaves = C ++ r.leaves ∧
+        (r.done = false → post = []) ∧ (r.treeEnd = true → post = []) ∧
+        (isLeftmost path = true → pre = []) ∧ (isRightmost path = true → post = [] ∧ C.length = 1)
+
+/-- the loop of `COMPUTEHASH` over the path, given the specification of the recursive calls -/
+theorem pathLoop_spec (hinj : EncInj enc) (hne : HNonEmpty H) (fuel : Nat) (ih : CHSpec H enc fuel) :
+    ∀ (rev : List PIN) (rs : List Tree), Sibs H enc rev rs →
+    ∀ hash rm leaves inners r,
+      pathLoop (computeHash H enc fuel) hash rm rev leaves inners = .ok r →
+      (∀ p ∈ inners, ∀ n ∈ p, ValidNode true n) →
+      r.hash = hash ∧ (r.treeEnd = true → rm = true) ∧ (r.done = true → r.leaves = []) ∧ (∀ p ∈ r.inners, p ∈ inners) ∧
+      (Collision H ∨ ∃ C post, rs.flatMap (pl H) = C ++ post ∧ leaves = C ++ r.leaves ∧
+        (r.done = false → post = []) ∧ (r.treeEnd = true → post = [])) := by
+  intro rev rs hs
+  induction hs with
+  | nil =>
+    intro hash rm leaves inners r h _
+    simp only [pathLoop] at h
+    injection h with h; subst h
+    exact ⟨rfl, by simp, by simp, fun p hp => hp, Or.inr ⟨[], [], by simp, by simp, by simp, by simp⟩⟩
+  | skip n rev rs hn _ ihs =>
+    intro hash rm leaves inners r h hv
+    simp only [pathLoop, if_pos hn] at h
+    exact ihs hash rm leaves inners r h hv
+  | take n rev rt rs hn1 hn2 hwr hsibs ihs =>
+    intro hash rm leaves inners r h hv
+    simp only [pathLoop, if_neg hn1] at h
+    cases inners with
+    | nil => simp at h
+    | cons ins rinners =>
+      simp only at h
+      cases hc : computeHash H enc fuel ins (rm && isRightmost rev.reverse) leaves rinners with
+      | error e => rw [hc] at h; simp at h
+      | ok r1 =>
+        rw [hc] at h
+        simp only at h
+        have hvins : ∀ n ∈ ins, ValidNode false n := fun n hn => valid_true_false (hv ins (by simp) n hn)
+        have hvr : ∀ p ∈ rinners, ∀ n ∈ p, ValidNode true n := fun p hp => hv p (by simp [hp])
+        obtain ⟨b1, c1, d1, a1⟩ := ih ins _ leaves rinners r1 hc hvins hvr
+        by_cases hh : r1.hash ≠ n.right
+        · rw [if_pos hh] at h; simp at h
+        · rw [if_neg hh] at h
+          have hh' : r1.hash = Tree.hash H enc rt := by rw [← hn2]; exact Classical.not_not.mp hh
+          have hlm : isLeftmost ins = true := (isLeftmost_iff ins).mpr (fun m hm => (hv ins (by simp) m hm).2.2 rfl)
+          rcases a1 rt hwr hh' with c | ⟨pre, C1, post1, e1, e2, e3, e4, e5, _⟩
+          · -- collision: still establish the bookkeeping facts
+            by_cases hd : r1.done = true
+            · rw [if_pos hd] at h
+              injection h with h; subst h
+              refine ⟨rfl, ?_, fun _ => c1 hd, fun p hp => by simp [d1 p hp], Or.inl c⟩
+              intro ht
+              have := b1 ht
+              simp only [Bool.and_eq_true] at this
+              exact this.1
+            · rw [if_neg hd] at h
+              obtain ⟨g1, g2, g3, g4, _⟩ := ihs hash rm r1.leaves r1.inners r h (fun p hp => hvr p (d1 p hp))
+              exact ⟨g1, g2, g3, fun p hp => by simp [d1 p (g4 p hp)], Or.inl c⟩
+          · have hpre : pre = [] := e5 hlm
+            subst hpre
+            by_cases hd : r1.done = true
+            · rw [if_pos hd] at h
+              injection h with h; subst h
+              refine ⟨rfl, ?_, fun _ => c1 hd, fun p hp => by simp [d1 p hp], Or.inr ⟨C1, post1 ++ rs.flatMap (pl H), ?_, e2, by simp [hd], ?_⟩⟩
+              · intro ht
+                have := b1 ht
+                simp only [Bool.and_eq_true] at this
+                exact this.1
+              · simp only [List.flatMap_cons]; rw [e1]; simp
+              · intro ht
+                have hrm := b1 ht
+                simp only [Bool.and_eq_true] at hrm
+                have hrs : rs = [] := Sibs.nil_of_rightmost H enc hsibs
+                  (fun m hm => (isRightmost_iff rev.reverse).mp hrm.2 m (by simp [hm]))
+                rw [e4 ht, hrs]; simp
+            · rw [if_neg hd] at h
+              have hd' : r1.done = false := by simpa using hd
+              obtain ⟨g1, g2, g3, g4, g5⟩ := ihs hash rm r1.leaves r1.inners r h (fun p hp => hvr p (d1 p hp))
+              refine ⟨g1, g2, g3, fun p hp => by simp [d1 p (g4 p hp)], ?_⟩
+              rcases g5 with c | ⟨C2, post2, f1, f2, f3, f4⟩
+              · exact Or.inl c
+              · refine Or.inr ⟨C1 ++ C2, post2, ?_, ?_, f3, f4⟩
+                · simp only [List.flatMap_cons]; rw [e1, e3 hd', f1]; simp
+                · rw [e2, f2]; simp
+
+/-- bookkeeping facts of `COMPUTEHASH` that need no tree -/
+def CHBook (fuel : Nat) : Prop :=
+  ∀ path rm leaves inners r, computeHash H enc fuel path rm leaves inners = .ok r →
+    (r.treeEnd = true → rm = true) ∧ (r.done = true → r.leaves = []) ∧ (∀ p ∈ r.inners, p ∈ inners) ∧
+    ∃ nleaf rleaves, leaves = nleaf :: rleaves ∧ r.hash = pathLeafHash H enc path nleaf
+
+theorem pathLoop_book (fuel : Nat) (ih : CHBook H enc fuel) :
+    ∀ (rev : List PIN) hash rm leaves inners r,
+      pathLoop (computeHash H enc fuel) hash rm rev leaves inners = .ok r →
+      r.hash = hash ∧ (r.treeEnd = true → rm = true) ∧ (r.done = true → r.leaves = []) ∧ (∀ p ∈ r.inners, p ∈ inners) := by
+  intro rev
+  induction rev with
+  | nil =>
+    intro hash rm leaves inners r h
+    simp only [pathLoop] at h
+    injection h with h; subst h
+    exact ⟨rfl, by simp, by simp, fun p hp => hp⟩
+  | cons n rev ihs =>
+    intro hash rm leaves inners r h
+    simp only [pathLoop] at h
+    by_cases hn : n.right = []
+    · rw [if_pos hn] at h; exact ihs hash rm leaves inners r h
+    · rw [if_neg hn] at h
+      cases inners with
+      | nil => simp at h
+      | cons ins rinners =>
+        simp only at h
+        cases hc : computeHash H enc fuel ins (rm && isRightmost rev.reverse) leaves rinners with
+        | error e => rw [hc] at h; simp at h
+        | ok r1 =>
+          rw [hc] at h
+          simp only at h
+          obtain ⟨b1, c1, d1, _⟩ := ih ins _ leaves rinners r1 hc
+          by_cases hh : r1.hash ≠ n.right
+          · rw [if_pos hh] at h; simp at h
+          · rw [if_neg hh] at h
+            by_cases hd : r1.done = true
+            · rw [if_pos hd] at h
+              injection h with h; subst h
+              refine ⟨rfl, ?_, fun _ => c1 hd, fun p hp => by simp [d1 p hp]⟩
+              intro ht
+              have := b1 ht
+              simp only [Bool.and_eq_true] at this
+              exact this.1
+            · rw [if_neg hd] at h
+              obtain ⟨g1, g2, g3, g4⟩ := ihs hash rm r1.leaves r1.inners r h
+              exact ⟨g1, g2, g3, fun p hp => by simp [d1 p (g4 p hp)]⟩
+
+theorem chbook : ∀ fuel, CHBook H enc fuel := by
+  intro fuel
+  induction fuel with
+  | zero => intro path rm leaves inners r h; simp [computeHash] at h
+  | succ fuel ih =>
+    intro path rm leaves inners r h
+    cases leaves with
+    | nil => simp [computeHash] at h
+    | cons nleaf rleaves =>
+      simp only [computeHash] at h
+      by_cases hr : rleaves = []
+      · rw [if_pos hr] at h
+        injection h with h; subst h
+        refine ⟨?_, fun _ => rfl, fun p hp => hp, nleaf, rleaves, rfl, rfl⟩
+        intro ht; simp only [Bool.and_eq_true] at ht; exact ht.1
+      · rw [if_neg hr] at h
+        obtain ⟨g1, g2, g3, g4⟩ := pathLoop_book H enc fuel ih _ _ _ _ _ _ h
+        exact ⟨g2, g3, g4, nleaf, rleaves, rfl, g1⟩
+
+/-- **the specification of `COMPUTEHASH` holds at every recursion depth** -/
+theorem chspec (hinj : EncInj enc) (hne : HNonEmpty H) : ∀ fuel, CHSpec H enc fuel := by
+  intro fuel
+  induction fuel with
+  | zero => intro path rm leaves inners r h; simp [computeHash] at h
+  | succ fuel ih =>
+    intro path rm leaves inners r h hvp hvi
+    obtain ⟨b, c, d, nleaf, rleaves, hl, hhash⟩ := chbook H enc (fuel + 1) path rm leaves inners r h
+    refine ⟨b, c, d, ?_⟩
+    intro s hws hs
+    subst hl
+    rw [hhash] at hs
+    rcases pathHash_sound H enc hinj path _ s hvp hws hs with cl | ⟨s', hreach, hs'⟩
+    · exact Or.inl cl
+    · obtain ⟨hws', rs, pre, hsibs, hpl, hlm⟩ := reach_sibs H enc hne hreach hws
+      rcases leaf_sound H enc hinj s' hws' nleaf hs' with cl | ⟨k, v, ver, e1, e2⟩
+      · exact Or.inl cl
+      · have hpl' : pl H s' = [nleaf] := by subst e1; subst e2; simp [pl, Tree.leaves, pleafOf]
+        rw [hpl'] at hpl
+        have hrmost : isRightmost path = true → rs = [] := fun hr =>
+          Sibs.nil_of_rightmost H enc hsibs (fun m hm => (isRightmost_iff path).mp hr m (by simpa using hm))
+        simp only [computeHash] at h
+        by_cases hr : rleaves = []
+        · rw [if_pos hr] at h
+          injection h with h; subst h
+          subst hr
+          refine Or.inr ⟨pre, [nleaf], rs.flatMap (pl H), hpl, by simp, by simp, ?_, hlm, ?_⟩
+          · intro ht; simp only [Bool.and_eq_true] at ht; rw [hrmost ht.2]; simp
+          · intro hrm; rw [hrmost hrm]; simp
+        · rw [if_neg hr] at h
+          obtain ⟨_, _, _, _, g5⟩ := pathLoop_spec H enc hinj hne fuel ih path.reverse rs hsibs _ _ _ _ _ h hvi
+          rcases g5 with cl | ⟨C, post, f1, f2, f3, f4⟩
+          · exact Or.inl cl
+          · refine Or.inr ⟨pre, nleaf :: C, post, ?_, by rw [f2]; simp, f3, f4, hlm, ?_⟩
+            · rw [hpl, f1]; simp
+            · intro hrm
+              have hrs := hrmost hrm
+              subst hrs
+              simp at f1
+              obtain ⟨fc, fp⟩ := f1
+              subst fc; subst fp
+              simp
 end
 end IavlProof
